@@ -213,6 +213,42 @@ pub fn run(args: &Args) -> i32 {
             check.inconclusive(format!("mesh does not connect all real nodes after setup ({} of {n})", seen.len()));
             return;
         }
+        // redundant connections: some linked pairs get a second connection and then lose their first (oldest) one;
+        // the pair stays connected throughout, so the statement's premise (connected network) still holds
+        let mut replaced_edges: Vec<String> = vec![];
+        if rng.chance(1, 3) {
+            let es: Vec<(usize, usize)> = edges.iter().copied().collect();
+            for (a, b) in es {
+                if !rng.chance(1, 2) {
+                    continue;
+                }
+                let (x, y) = if rng.bool() { (a, b) } else { (b, a) };
+                rig.connect(x, y);
+                if !rig.run(800_000, sink!()) {
+                    check.inconclusive("second connection not quiescent");
+                    return;
+                }
+                // close the oldest connection of the pair, seen from a PRNG side
+                let (c, peer_other) = if rng.bool() { (x, rig.peer(y)) } else { (y, rig.peer(x)) };
+                let mut live: Vec<libp2p_swarm::ConnectionId> = vec![];
+                for e in rig.recorder(c).log.lock().unwrap().iter() {
+                    match e {
+                        vnet::BEv::ConnectionEstablished { conn, peer, .. } if *peer == peer_other => live.push(*conn),
+                        vnet::BEv::ConnectionClosed { conn, peer, .. } if *peer == peer_other => live.retain(|l| l != conn),
+                        _ => {}
+                    }
+                }
+                if live.len() >= 2 {
+                    rig.net.swarm(c).close_connection(live[0]);
+                    rig.net.touch(c);
+                    if !rig.run(800_000, sink!()) {
+                        check.inconclusive("close not quiescent");
+                        return;
+                    }
+                    replaced_edges.push(format!("{a}-{b}"));
+                }
+            }
+        }
         // publish phase
         let m = rng.range(2, 8) as usize;
         let mut publisher: BTreeMap<Vec<u8>, usize> = BTreeMap::new();
@@ -320,7 +356,7 @@ pub fn run(args: &Args) -> i32 {
                 }
             }
         }
-        let wit = json!({"case": case_idx, "nodes": n, "taps": tap_links.iter().map(|(t, l)| format!("{t}->{l:?}")).collect::<Vec<_>>(), "validating": validating, "edges": edges.iter().map(|(a, b)| format!("{a}-{b}")).collect::<Vec<_>>(),
+        let wit = json!({"case": case_idx, "nodes": n, "taps": tap_links.iter().map(|(t, l)| format!("{t}->{l:?}")).collect::<Vec<_>>(), "validating": validating, "edges_whose_first_connection_was_replaced": replaced_edges, "edges": edges.iter().map(|(a, b)| format!("{a}-{b}")).collect::<Vec<_>>(),
             "publishers": publisher.iter().map(|(d, p)| format!("{}@{p}", String::from_utf8_lossy(d))).collect::<Vec<_>>(),
             "received": (0..n).map(|i| { let mut v: Vec<String> = received[i].iter().map(|(d, c)| format!("{}x{c}", String::from_utf8_lossy(d))).collect(); v.sort(); v }).collect::<Vec<_>>()});
         for (i, d) in &dup {
@@ -344,6 +380,7 @@ pub fn run(args: &Args) -> i32 {
         check.count("messages_published", publisher.len() as u64);
         check.count("application_deliveries", received.iter().map(|r| r.values().map(|c| *c as u64).sum::<u64>()).sum());
         check.count("cases_with_taps", (!tap_links.is_empty()) as u64);
+        check.count("edges_whose_first_connection_was_replaced", replaced_edges.len() as u64);
         check.count("cases_with_validating_nodes", validating.iter().any(|v| *v) as u64);
         check.count("application_validations_answered", validations);
         check.distinct("distinct_topologies", Sig::new().str(&format!("{edges:?}")).0);
